@@ -112,6 +112,26 @@ class GaussStep(Gauss):
         return np.floor(out * 4.0) * 0.25
 
 
+class GaussTilt(GaussRamp):
+    """Ramp prior on x0 but a LINEAR map to the unit hypercube: the prior in the hypercube is
+    not flat (density 2u on the first axis) and the model says so by overriding
+    `log_prior_unit_hypercube`.  Makes the unit-hypercube log-prior a non-zero term of every
+    importance weight."""
+
+    def to_unit_hypercube(self, x):
+        return Gauss.to_unit_hypercube(self, x)
+
+    def from_unit_hypercube(self, x):
+        return Gauss.from_unit_hypercube(self, x)
+
+    def log_prior_unit_hypercube(self, x):
+        v = self.unstructured_view(x)
+        inside = ~np.any((v < 0) | (v >= 1), axis=-1)
+        with np.errstate(divide="ignore", invalid="ignore"):
+            lp = np.log(2.0 * v[..., 0])
+        return np.where(inside, lp, -np.inf)
+
+
 class GaussOpen(Gauss):
     """Uniform prior whose `log_prior` does NOT vanish outside the bounds (the Model API does
     not require it to: the bounds are enforced by nessai), likelihood peaked beyond the upper
@@ -211,6 +231,8 @@ def make(name="G2", **kw):
         return GaussCut(2, **kw)
     if name == "G2hole":
         return GaussHole(2, **kw)
+    if name == "G2tilt":
+        return GaussTilt(2, **kw)
     if name == "G2open":
         return GaussOpen(2, **kw)
     if name == "GW5":
